@@ -19,7 +19,9 @@ Open Scope Z_scope.
      every event is  EPlugin ts x  with ts = arrival x, station x registered, 0 <= arrival x < departure x,
                  or  ERecompute ts with 0 <= ts,
                  or  EOther ts prec code (a bare acnsim.Event / user-defined Event subclass with its own
-                     precedence and an event_type the simulator does not dispatch on) with 0 <= ts;
+                     precedence; `code` = number of its event_type label: 2 if it is labelled "Recompute" (it then requests a
+                     resolve like a RecomputeEvent), otherwise a label the simulator ignores; not labelled Plugin/Unplug)
+                     with 0 <= ts;
      (session id, station) pairs are pairwise distinct — two sessions may carry the same id on
      different stations;
      two sessions on one station never overlap:  departure x <= arrival y \/ departure y <= arrival x
@@ -29,7 +31,7 @@ Theorem C01_valid_unfold : forall stations evs,
   (Forall (fun e => match e with
                     | EPlugin ts x => ts = s_arrival x /\ In (s_station x) stations /\ 0 <= s_arrival x < s_departure x
                     | ERecompute ts => 0 <= ts
-                    | EOther ts _ c => 0 <= ts /\ c <> 0 /\ c <> 1 /\ c <> 2
+                    | EOther ts _ c => 0 <= ts /\ c <> 0 /\ c <> 1
                     | EUnplug _ _ => False
                     end) evs) /\
   NoDup (map (fun x => (sid x, s_station x)) (sessions_of evs)) /\
